@@ -18,8 +18,8 @@ const c12TickBudget = 100000 // loop iterations inside the library per call; leg
 
 const absent = "" // an omitted slice part
 
-var c12Mixed = []rune("aé€😀bñ漢𝄞c")
-var c12Ascii = []rune("abcdefghi")
+var c12Mixed = []rune("aé€😀bñ漢𝄞cßд🙂zあ\u0301q")
+var c12Ascii = []rune("abcdefghijklmnop")
 
 var c12Subjects = []string{"array", "objarray", "nested", "ascii", "mixed", "number", "object", "null"}
 var c12Forms = []string{"field", "current", "dot-k", "index0", "pipe0", "flatten", "paren", "then-reverse", "then-step2", "multi"}
@@ -92,7 +92,7 @@ func c12Run(r *core.Run) {
 	r.Bound("tick_budget_per_call", c12TickBudget)
 	maxN := 6
 	if r.Thorough() {
-		maxN = 9
+		maxN = 16
 	}
 	r.Bound("max_length", maxN)
 	r.Bound("subjects", c12Subjects)
